@@ -24,16 +24,18 @@ structure LocalDB where
 def LocalDB.new (main : Map) : LocalDB :=
   { txcache := some [], cache := [], main := main, intx := false }
 
+/-- the `txcache` part of `(*LocalDB).get`: consulted only inside a transaction. -/
+def LocalDB.txGet (l : LocalDB) (k : Bytes) : Option Bytes :=
+  if l.intx then
+    match l.txcache with
+    | some t => get t k
+    | none => none
+  else none
+
 /-- `(*LocalDB).get`: txcache (only inside a transaction), then cache, then maindb with
 read-through fill of `cache`. -/
 def LocalDB.rawGet (l : LocalDB) (k : Bytes) : LocalDB × Option Bytes :=
-  let fromTx : Option Bytes :=
-    if l.intx then
-      match l.txcache with
-      | some t => get t k
-      | none => none
-    else none
-  match fromTx with
+  match l.txGet k with
   | some v => (l, some v)
   | none =>
     match get l.cache k with
